@@ -1,4 +1,4 @@
-HOOK_COMMITS = ["119410b"]
+HOOK_COMMITS = ["119410b", "11f73ab"]
 
 NOT_APPLICABLE = {}
 
@@ -70,5 +70,29 @@ META = {
         "design_ref": "DESIGN.md §7 C20",
         "note": "Trusted: as C03.",
         "technique": "Lean 4 invariant proof over the WAL state machine + independent decoding of real on-disk bytes at every crash point",
+    },
+    "C06": {
+        "text": "Proved over the event scripts: no event creates-empty/writes/truncates a CAS path, every other event leaves a blob's bytes alone, and the rename publishes the whole staged content at once; readers keep their inode. Observed on the real code at intermediate instants: BLAKE3 of every CAS file at every crash point and scheduling step. " + _corr,
+        "design_ref": "DESIGN.md §7 C06",
+        "note": "Trusted: Lean kernel; Fs.lean (assumed OS semantics); scripts ↔ real syscalls by trace comparison.",
+        "technique": "Lean 4 syntactic + frame theorems over event scripts + crash-point / schedule observation of CAS contents",
+    },
+    "C19": {
+        "text": "For EVERY disk and configuration: if stored version ≠ 4 or stored num_ops_per_wal ≠ requested, open fails with the matching error having issued only pre-gate events (mkdir of the two top-level dirs, open+flock of LOCK); no other file changes. Lean theorem over openScript. " + _corr,
+        "design_ref": "DESIGN.md §7 C19",
+        "note": "Trusted: Lean kernel; serde_json abstracted to the canonical rendering; unchanged-data-after-correct-open via C02.",
+        "technique": "Lean 4 theorem over the open script + differential check with directory dumps around rejected opens",
+    },
+    "C11": {
+        "text": "Logic proved: the loser of the lock touches nothing but LOCK, and in every open the flock precedes all settings/index/WAL/CAS traffic. Kernel flock exclusivity and release-on-close/death are assumed (named), and exercised with racing threads, a second handle, a second process, killed/dropped/kept-alive owners. " + _corr,
+        "design_ref": "DESIGN.md §7 C11",
+        "note": "PARTIAL in the brief's sense: OS lock semantics cannot be proved, only the call order around it.",
+        "technique": "Lean 4 theorems on the open script (lock-first) + process/thread race exercise through the interposer",
+    },
+    "C15": {
+        "text": "For all programs, thread counts and schedules of the interleaving model: lock invariant, lock order intents < state (< wal), and no reachable deadlock (some thread can always step while work remains). " + _corr + " Every forced schedule on the real code must also complete under a watchdog.",
+        "design_ref": "DESIGN.md §7 C15, §4 P5",
+        "note": "Trusted: Lean kernel; Conc.lean model at yield-point granularity; fairness and per-op step bound not formalised.",
+        "technique": "Lean 4 invariant + progress proof over an interleaving model + forced-schedule correspondence via yield-point hooks",
     },
 }
